@@ -1,7 +1,7 @@
 package server
 
 // C16_values: compaction must not change the VALUE a restart recovers.  Key 5 is held by A
-// (Count 1, value v1 set with the lock); then, by choice: nothing more / B locks it too setting
+// (Count 1, value v1 set with the lock); then, by choice: nothing more / a zero-expiry LOCK sets v2 / B locks it too setting
 // v2 and stays / B locks setting v2 and unlocks again (A keeps the key alive, the value stays
 // v2) / B's unlock itself sets v3.  The log is rotated and compacted; a fresh instance recovers
 // from the directory before and after the compaction: same holders and same value.
@@ -72,8 +72,16 @@ func vfH_C16_values() {
 	a.Flag, a.Expried, a.ExpriedFlag, a.Count = protocol.LOCK_FLAG_CONTAINS_DATA, 0xffff, 0x4100, 1
 	a.Data = protocol.NewLockCommandDataSetString("v1")
 	env.lock(0, a)
-	hist := vfChoice("hist", 4)
-	if hist >= 1 {
+	hist := vfChoice("hist", 5)
+	if hist == 4 {
+		// a zero-expiry LOCK by another LockId sets v2 and leaves no hold behind
+		z := env.newCmd(protocol.COMMAND_LOCK, key, vfLockId(3))
+		z.Flag, z.Expried, z.ExpriedFlag, z.Count = protocol.LOCK_FLAG_CONTAINS_DATA, 0, 0x0100, 1
+		z.Data = protocol.NewLockCommandDataSetString("v2")
+		n := len(env.replies)
+		env.lock(0, z)
+		vfAssert(env.replies[n].result == protocol.RESULT_SUCCED, "C16: harness: zero-expiry lock refused")
+	} else if hist >= 1 {
 		b := env.newCmd(protocol.COMMAND_LOCK, key, vfLockId(2))
 		b.Flag, b.Expried, b.ExpriedFlag, b.Count = protocol.LOCK_FLAG_CONTAINS_DATA, 0xffff, 0x4100, 1
 		b.Data = protocol.NewLockCommandDataSetString("v2")
@@ -81,7 +89,7 @@ func vfH_C16_values() {
 		env.lock(0, b)
 		vfAssert(env.replies[n].result == protocol.RESULT_SUCCED, "C16: harness: second holder refused")
 	}
-	if hist >= 2 {
+	if hist == 2 || hist == 3 {
 		u := env.newCmd(protocol.COMMAND_UNLOCK, key, vfLockId(2))
 		if hist == 3 {
 			u.Flag = protocol.UNLOCK_FLAG_CONTAINS_DATA
